@@ -756,3 +756,39 @@ func TestC06WebAPI(t *testing.T) {
 		vlib.Sample(reqs)
 	})
 }
+
+// TestC06Table: exhaustive single-request table — every endpoint x credential kind x target x body shape (exact), each on a
+// fresh agent, against the same reference authorisation table as the sequences.
+func TestC06Table(t *testing.T) {
+	endpoints := []string{"add", "remove", "update", "set-admin", "list", "list-full"}
+	targets := []string{"adm-zeta", "adm-eta", "usr-theta", "usr-iota", "new-kappa", "no-such-user", ".hidden", ""}
+	actors := []string{"adm-zeta", "usr-theta"}
+	n := 0
+	for _, ep := range endpoints {
+		creds := c06Creds[:10]
+		if ep == "update" {
+			creds = c06Creds
+		}
+		for _, cred := range creds {
+			for _, target := range targets {
+				if (ep == "list" || ep == "list-full") && target != "adm-zeta" {
+					continue
+				}
+				for _, actor := range actors {
+					for _, shape := range []string{"exact", "dup-keys", "missing-field"} {
+						r := c06Req{Endpoint: ep, Cred: cred, Actor: actor, Target: target, Shape: shape, NewPW: "table-new-password", Admin: true, RightPW: true}
+						n++
+						if msg := bubble(t, func() string { return runC06([]c06Req{r}) }); msg != "" {
+							vlib.Violation(msg, "TestC06Table", r)
+							t.Fatalf("%s\nrequest: %+v", msg, r)
+						}
+						vlib.NT("c06table", ep, cred, target, actor, shape)
+					}
+				}
+			}
+		}
+	}
+	vlib.SetExtra("authorisation_table_cells_enumerated", int64(n))
+	vlib.Class("authorisation-table-exhaustive")
+	vlib.Sample(map[string]any{"kind": "exhaustive table", "endpoints": endpoints, "credential_kinds": c06Creds, "targets": targets, "actors": actors, "shapes": []string{"exact", "dup-keys", "missing-field"}, "cells": n})
+}
